@@ -51,7 +51,19 @@ class C08(Check):
         return case
 
     def gen_cases(self):
-        return [self.make_case(self.rng) for _ in range(200 if self.tier == "quick" else 2500)]
+        cases = [self.make_case(self.rng) for _ in range(200 if self.tier == "quick" else 2500)]
+        # directed, on their own stream: the program first bumps one run-time selected element of a table through the table's ADDRESS
+        # (`get_address`, the idiom of the dispatcher's counter table), then reads and writes the other variables as usual
+        import random
+        rng = random.Random(self.seed + 808)
+        for _ in range(24 if self.tier == "quick" else 300):
+            c = self.make_case(rng)
+            c["percpu"] = False
+            c["derived"].insert(rng.randrange(len(c["derived"]) + 1), ["tbl", rng.choice(["2q", "2I", "2I"])])
+            c["base"] = [d for d in c["base"] if d[0] != "tbl"]
+            c["bump"] = [rng.randrange(2), rng.choice([1, 5, 1000])]
+            cases.append(c)
+        return cases
 
     def corpus(self):
         return [{"base": [["a", "I"], ["b", "I"]], "derived": [["a", "Q"], ["c", "H"]], "subs": [], "percpu": False, "valseed": 1}]
@@ -137,6 +149,13 @@ class C08(Check):
             e = Main(ProgType.XDP, "GPL", subprograms=subs)
             objs = {"main": e}
             objs.update({f"s{i}": s for i, s in enumerate(subs)})
+            if case.get("bump"):
+                slot, k = case["bump"]
+                letter = self.letters(dict(eff["main"])["tbl"])[0]
+                e.r3 = slot
+                with e.tbl.get_address(None, False, False) as (dst, _):
+                    e.r[dst] += struct.calcsize(letter) * e.r3
+                    getattr(e, "m" + letter)[e.r[dst]] += k
             # phase 1: the program reads every scalar variable into its mirror
             for key, mir in mirrors.items():
                 o, n = key.split(".")
@@ -364,6 +383,13 @@ class C08(Check):
         for key, v in b["vals"].items():
             ow, n = key.split(".")
             f = dict(eff[ow])[n]
+            if f in MULTI and key == "main.tbl" and case.get("bump"):
+                slot, k = case["bump"]
+                v = list(v)
+                bits = 8 * fsize(self.letters(f)[0])
+                v[slot] = (v[slot] + k) % (1 << bits)
+                if f[-1].islower() and v[slot] >= 1 << (bits - 1):
+                    v[slot] -= 1 << bits
             if f in MULTI and tuple(o["back"][key]) != tuple(v):
                 return f"multi-element variable {key}:{f}: wrote {v}, read back {o['back'][key]} after the program ran"
         return True
